@@ -154,11 +154,13 @@ def RW.headerFields (w : RW) (status : Nat) : List (String × String) :=
 
 /-- `writeHeader(status)` -/
 def RW.writeHeader (w : RW) (status : Nat) : RW × Option Err :=
-  let w1 := w.declareAll (announcedTrailers w.header)
-  if w1.panicked then (w1, none)
+  if (w.declareAll (announcedTrailers w.header)).panicked then (w.declareAll (announcedTrailers w.header), none)
   else
-    let r := w1.str.write (.hdr (w1.headerFields status))
-    ({ w1 with str := r.1 }, r.2)
+    ({ w.declareAll (announcedTrailers w.header) with
+        str := ((w.declareAll (announcedTrailers w.header)).str.write
+          (.hdr ((w.declareAll (announcedTrailers w.header)).headerFields status))).1 },
+     ((w.declareAll (announcedTrailers w.header)).str.write
+        (.hdr ((w.declareAll (announcedTrailers w.header)).headerFields status))).2)
 
 /-- `WriteHeader(status)`; `none` = the call panics on the status code -/
 def RW.WriteHeader (w : RW) (status : Nat) : Option RW :=
@@ -183,47 +185,45 @@ def RW.sniff (w : RW) (p : List Nat) : RW :=
     { w with header := w.header.put "Content-Type" ["*"] }
   else w
 
+/-- the `if !w.headerWritten { … }` block of `doWrite` -/
+def RW.ensureHeader (w : RW) : RW × Option Err :=
+  if !w.headerWritten then
+    match (w.sniff w.small).writeHeader (w.sniff w.small).status with
+    | (w2, some e) => (w2, some (maybeReplaceError e))
+    | (w2, none) => if w2.panicked then (w2, none) else ({ w2 with headerWritten := true }, none)
+  else (w, none)
+
+/-- the DATA frame part of `doWrite`: frame header, buffered small response, `p` — three writes -/
+def RW.writeBody (w1 : RW) (p : List Nat) : RW × Nat × Option Err :=
+  if w1.small.length + p.length = 0 then (w1, 0, none)
+  else
+    match w1.str.write (.raw (dataFrameHeader (w1.small.length + p.length))) with
+    | (s1, some e) => ({ w1 with str := s1 }, 0, some (maybeReplaceError e))
+    | (s1, none) =>
+      match (if !w1.small.isEmpty then
+              (match s1.write (.raw w1.small) with
+                | (s2, some e) => (({ w1 with str := s2 } : RW), some (maybeReplaceError e))
+                | (s2, none) => ({ w1 with str := s2, small := [] }, none))
+            else (({ w1 with str := s1 } : RW), (none : Option Err))) with
+      | (w3, some e) => (w3, 0, some e)
+      | (w3, none) =>
+        if p.isEmpty then (w3, 0, none)
+        else
+          match w3.str.write (.raw p) with
+          | (s3, some e) => ({ w3 with str := s3 }, 0, some (maybeReplaceError e))
+          | (s3, none) => ({ w3 with str := s3 }, p.length, none)
+
 /-- `doWrite(p)` -/
 def RW.doWrite (w : RW) (p : List Nat) : RW × Nat × Option Err :=
-  let pre : RW × Option Err :=
-    if !w.headerWritten then
-      let w1 := w.sniff w.small
-      match w1.writeHeader w1.status with
-      | (w2, some e) => (w2, some (maybeReplaceError e))
-      | (w2, none) => if w2.panicked then (w2, none) else ({ w2 with headerWritten := true }, none)
-    else (w, none)
-  match pre with
+  match w.ensureHeader with
   | (w1, some e) => (w1, 0, some e)
-  | (w1, none) =>
-    if w1.panicked then (w1, 0, none)
-    else
-      let l := w1.small.length + p.length
-      if l = 0 then (w1, 0, none)
-      else
-        match w1.str.write (.raw (dataFrameHeader l)) with
-        | (s1, some e) => ({ w1 with str := s1 }, 0, some (maybeReplaceError e))
-        | (s1, none) =>
-          let w2 := { w1 with str := s1 }
-          let step2 : RW × Option Err :=
-            if !w2.small.isEmpty then
-              match w2.str.write (.raw w2.small) with
-              | (s2, some e) => ({ w2 with str := s2 }, some (maybeReplaceError e))
-              | (s2, none) => ({ w2 with str := s2, small := [] }, none)
-            else (w2, none)
-          match step2 with
-          | (w3, some e) => (w3, 0, some e)
-          | (w3, none) =>
-            if p.isEmpty then (w3, 0, none)
-            else
-              match w3.str.write (.raw p) with
-              | (s3, some e) => ({ w3 with str := s3 }, 0, some (maybeReplaceError e))
-              | (s3, none) => ({ w3 with str := s3 }, p.length, none)
+  | (w1, none) => if w1.panicked then (w1, 0, none) else w1.writeBody p
 
 /-- `Write(p)` -/
 def RW.Write (w : RW) (p : List Nat) : RW × Nat × Option Err :=
   let allowed0 := bodyAllowedForStatus w.status
   let (w, allowed) :=
-    if !w.headerComplete then (((w.sniff p).WriteHeader 200).getD w, true) else (w, allowed0)
+    if !w.headerComplete then (((w.sniff p).WriteHeader 200).getD (w.sniff p), true) else (w, allowed0)
   if !allowed then (w, 0, some .bodyNotAllowed)
   else
     let w := { w with numWritten := w.numWritten + p.length }
